@@ -26,6 +26,11 @@ CORE = [
     ["THREAD 1 M1000 A", "THREAD 2 J1000n", "THREAD 3 M0n L1", "MAIN L3 L2 J2 JA"],
     ["THREAD 1 M O1 A", "THREAD 2 M O1", "THREAD 3 J O1 O2 V", "MAIN L1 L2 L3 O1 J3 JA"],
     ["THREAD 1 Jn V O1", "THREAD 2 M V O1", "MAIN L1 L2 O2 J1 JA"],
+    # at-exit callbacks registered while the callbacks are being run, and from inside a once-function
+    ["THREAD 1 J A N A", "MAIN L1 J1"],
+    ["THREAD 1 M N N", "THREAD 2 J N", "MAIN L1 L2 J2 JA"],
+    ["THREAD 1 J A B1 A", "THREAD 2 M B1 A", "MAIN L1 L2 J1 JA"],
+    ["THREAD 1 M B1 B2", "THREAD 2 M O1 B2 A", "MAIN L1 L2 JA"],
     # bounded join-all (aws_thread_set_managed_join_timeout_ns): gives up no earlier than the time-out, succeeds in time
     ["THREAD 1 M Z50", "MAIN T10 L1 JA T0 JA"],
     ["THREAD 1 M Z5000", "THREAD 2 M", "MAIN T10 L1 L2 JA T0 JA"],
@@ -47,7 +52,9 @@ def random_scenario(rng):
     for i in range(1, n + 1):
         ops = []
         for _ in range(rng.choice([0, 0, 1, 2, 3])):
-            ops.append("A")
+            ops.append(rng.choice(["A", "A", "A", "N"]))
+        if rng.random() < 0.2:
+            ops.append("B%d" % rng.randint(1, 2))
         for c in range(i + 1, n + 1):
             if parent[c] == i:
                 ops.append("L%d" % c)
